@@ -591,6 +591,7 @@ func main() {
 	prodBatch := flag.Int("prodbatch", -1, "child mode: run this batch rule by rule")
 	prodLo := flag.Int("prodlo", 0, "child mode: first rule of -prodbatch")
 	prodHi := flag.Int("prodhi", 0, "child mode: end of the rules of -prodbatch that run as one engine")
+	enums := flag.String("enums", "", "JSON file: the argument names the loader accepts per enumerated-argument predicate, as regenerated from its source")
 	flag.BoolVar(&prodSelfCheck, "prodselfcheck", false, "child mode, development aid: compare the packed accepting engines with single-rule engines")
 	flag.Parse()
 	if *deep {
@@ -793,6 +794,9 @@ func main() {
 	uniSweep(*tmp, func(r result) { enc.Encode(r) })
 	// a reusable state created at every point of an engine's history of Loads (history.go)
 	historySweep(*tmp, func(r result) { enc.Encode(r) })
+	// every accepted name of every enumerated-argument predicate; matches that are *gogrep.PartialNode (enums.go)
+	enumSweep(*tmp, *enums, func(r result) { enc.Encode(r) }, func(m interface{}) { enc.Encode(m) })
+	partialSweep(*tmp, func(r result) { enc.Encode(r) }, func(m interface{}) { enc.Encode(m) })
 	pwg.Wait()
 	enc.Encode(map[string]interface{}{"k": "meta", "rules": len(rules), "contexts": len(ctxs), "shapes": len(shapes)})
 }
